@@ -235,7 +235,7 @@ impl<const N: u32> PxE2<{ N }> {
                     frac64_z &= 0x_3FFF_FFFF_FFFF_FFFF;
                     frac_z = (frac64_z >> (reg_z + 34)) as u32; //frac32Z>>16;
 
-                    if reg_z <= (N - 4) {
+                    if reg_z + 4 <= N {
                         bit_n_plus_one =
                             ((0x_8000_0000_0000_0000_u64 >> (N - reg_z - 2)) & frac64_z) != 0;
                         bits_more =
@@ -246,7 +246,7 @@ impl<const N: u32> PxE2<{ N }> {
                             bit_n_plus_one = (exp_z & 0x2) != 0;
                             bits_more = (exp_z & 0x1) != 0;
                             exp_z = 0;
-                        } else if reg_z == (N - 3) {
+                        } else if reg_z + 3 == N {
                             bit_n_plus_one = (exp_z & 0x1) != 0;
                             exp_z &= 0x2;
                         }
@@ -265,7 +265,12 @@ impl<const N: u32> PxE2<{ N }> {
                     frac_z = 0;
                 }
 
-                exp_z <<= 28 - reg_z;
+                // a regime longer than 28 bits leaves room for only part of the exponent field
+                exp_z = if reg_z <= 28 {
+                    exp_z << (28 - reg_z)
+                } else {
+                    exp_z >> (reg_z - 28)
+                };
 
                 let mut u_z = Self::pack_to_ui(regime, exp_z as u32, frac_z);
 
